@@ -576,6 +576,20 @@ def main(chk):
     ewant = "[" + ", ".join('"%s"' % r for r in raws) + "]"
     eo = harness("eval", [{"src": eprog + ".{|a| a@{|s| s.len}}"}, {"src": "[" + ", ".join("`%s`" % r for r in raws) + "].{|a| a@{|s| s.len}}"}])
     chk.count(("eval-raw", eprog), True)
+    # layout does not change what a program DOES either: a call wrapped over several lines, with any indentation, evaluates its
+    # arguments and keyword arguments as the one-line form does
+    lpre = "t := {|x| x.p; x}\nf := {|p, q, a: 0, b: 0, c: 0| [p, q, a, b, c]}\n"
+    lforms = ["f(t(1), t(2), a: t(3), b: t(4), c: t(5)).p", "f(t(1), t(2),\n  a: t(3),\n  b: t(4),\n  c: t(5)).p", "f(t(1),\n        t(2),\n    a: t(3),\n  b: t(4),\nc: t(5)).p",
+              "f(\n t(1),\n  t(2),\n   a: t(3),\n    b: t(4),\n     c: t(5)\n).p", "f(t(1), t(2), a: t(3),\nb: t(4), c: t(5)).p", "f(t(1), t(2), a: t(3), # note\n\n\n b: t(4),\n\t\tc: t(5)).p",
+              "f(t(1), t(2),\n" + " " * 1200 + "a: t(3),\nb: t(4),\n" + "\t" * 40 + "c: t(5)).p"]
+    lay_outs = harness("eval", [{"src": lpre + f_} for f_ in lforms])
+    for f_, o in zip(lforms, lay_outs):
+        chk.count(("layout-eval", f_), True)
+        if (o["kind"], o.get("out")) != (lay_outs[0]["kind"], lay_outs[0].get("out")) or o.get("out") != "1\n2\n3\n4\n5\n[1, 2, 3, 4, 5]\n":
+            chk.fail("the layout of a call changes what it does: `%s` prints %r, the one-line form prints %r" % (f_.replace("\n", "\\n")[:120], o.get("out"), lay_outs[0].get("out")),
+                     {"harness": "eval", "program": lpre + f_, "got": {k: o.get(k) for k in ("kind", "out", "errk", "errmsg")}, "want": "1 2 3 4 5 [1, 2, 3, 4, 5]"},
+                     klass="C16:layout-eval")
+            break
     # a long token is taken with its FULL text: two names / str keys of one length that differ in a single character, at every
     # position, are two names (whatever is derived from a token — hash, table key — must depend on all of it)
     tprogs, tmeta = [], []
